@@ -18,6 +18,10 @@ func init() {
 		Trusted:     []string{"nacl/secretbox, Ed25519 (libp2p crypto), HKDF", "go/ssa (x/tools v0.29.0)"},
 		Assumptions: []string{"headers passed to OpenEnvelopePayload are the ones returned by OpenEnvelopeHeaders (checked at the message-store call site in C08/C14 scope)"},
 		Floors:      map[string]int{"D1": 3, "D2": 5, "D3": 5, "D4": 3, "D5": 1},
+		Borrows: []Borrow{
+			{From: "C14", Rules: []string{"D1", "D2"}, Why: "the push route is a second way to open an envelope: it must verify the device signature on every success return (a forged push is otherwise delivered as the sender's) and must not record a message key under the CID named by the unauthenticated push message (the log route skips the signature for a CID that has a key)"},
+			{From: "C09", Rules: []string{"D1"}, Why: "two payloads sealed under one counter share key and nonce; a member opens one and rejects the other genuine one"},
+		},
 		Run:         runC01,
 	})
 }
